@@ -404,6 +404,8 @@ def run(repo='/repo', tier='quick'):
     c01g(db, res)
     c01h(db, res)
     c01i(db, res, own)
+    from . import c01j
+    c01j.run(db, res)
     try:
         from . import c01b
         c01b.run(db, res)
